@@ -47,7 +47,7 @@ def make_prior(kind="default"):
 class Library:
     """N prior samples in the kernel's internal units, every row identifiable from its period."""
 
-    def __init__(self, N, seed=0, lnprior=True, s_unit="km/s", s_value=0.0):
+    def __init__(self, N, seed=0, lnprior=True, s_unit="km/s", s_value=0.0, data_unit="km/s"):
         import astropy.units as u
         from thejoker import JokerSamples
         rng = np.random.default_rng(1000 + seed)
@@ -70,7 +70,9 @@ class Library:
             s["ln_prior"] = self.lnprior
         self.samples = s
         self._pmap = {float(p): i + 1 for i, p in enumerate(self.P)}
-        self.packed = np.stack([self.P, self.e, self.omega, self.M0, self.s], axis=1)
+        # packed = what the kernel must see: the jitter column in the DATA's velocity unit
+        s_data = (self.s * u.Unit(s_unit)).to_value(u.Unit(data_unit))
+        self.packed = np.stack([self.P, self.e, self.omega, self.M0, s_data], axis=1)
 
     @classmethod
     def from_samples(cls, samples, data_unit="km/s"):
